@@ -23,7 +23,7 @@ func init() {
 		false, runC17)
 	register("C11",
 		"DECIDED (the clause 'never a value from an empty side of the sketch'): on every CFG path on which GetValueAtQuantile answers from the negative store, that store is known non-empty — either by an explicit emptiness/total test, or because the path took `rank < negative.TotalCount()` with a rank that is a non-negative constant or passed a `rank ≥ 0` test on the same path (so TotalCount() > rank ≥ 0). D2–D5 (shared obligations re-evaluated for weighted histories): AddWithCount forwards the weight unchanged to the side the value belongs to (C01-D1); the rank is q·(W−1) over the total weight and split between the sides by their totals (C01-D2); every store's KeyAtRank selects the first bin whose cumulative weight strictly exceeds the rank in index order (C01-D3); DDSketch.Reweight scales the zero weight and both stores by the same factor (C16-D1). "+
-			"SHARED (obligations of other properties that decide clauses this property states too, re-evaluated here under their home rule ids): C04-D1/D2/D3/D5/D6/D9 and C05-D8 (the add side of every store: a weight is counted in the bin of its index). C10-D1/D5 (the statistics blocks of the exact variant: every real extreme is written and read back). C14-D1 for the quantile queries and the sorted-flag typestate of the paginated store when it has one. C02-D1 (weights also arrive by merging: zero weight and both sides merged on every accepting path). C16-D2 (every store body scales everything it holds) and the exact variant's Reweight wrapper as C11-D6 (the statistics are reweighted — not rescaled — with the same factor after the inner sketch). C10-D4 (the exact variant clamps every single and every batch answer into [exact min, exact max], element by element). C06-D3 (decoding into a sketch only accumulates: the zero weight and the bins of a sketch assembled from encoded parts are the sums of the parts). C14-D2 for the two sketch types (a copy shares neither stores nor statistics with its original). C12-D1 (GetMinValue / GetMaxValue answer from the correct end of the correct side in the documented order). The exact variant's AddWithCount wrapper as C11-D7 (the inner sketch absorbs the value with the given weight — its quantiles stay the weighted ones). C12-D4 (the batch quantile query stores exactly the single-query answer per element). "+
+			"SHARED (obligations of other properties that decide clauses this property states too, re-evaluated here under their home rule ids): C04-D1/D2/D3/D5/D6/D9 and C05-D8 (the add side of every store: a weight is counted in the bin of its index). C10-D1/D5 (the statistics blocks of the exact variant: every real extreme is written and read back). C14-D1 for the quantile queries and the sorted-flag typestate of the paginated store when it has one. C17-D1/D3 (a change of mapping or unit: identity shortcut only for factor 1 and an equal mapping; every overlapping target bin receives its share). C02-D1 (weights also arrive by merging: zero weight and both sides merged on every accepting path). C16-D2 (every store body scales everything it holds) and the exact variant's Reweight wrapper as C11-D6 (the statistics are reweighted — not rescaled — with the same factor after the inner sketch). C10-D4 (the exact variant clamps every single and every batch answer into [exact min, exact max], element by element). C06-D3 (decoding into a sketch only accumulates: the zero weight and the bins of a sketch assembled from encoded parts are the sums of the parts). C14-D2 for the two sketch types (a copy shares neither stores nor statistics with its original). C12-D1 (GetMinValue / GetMaxValue answer from the correct end of the correct side in the documented order). The exact variant's AddWithCount wrapper as C11-D7 (the inner sketch absorbs the value with the given weight — its quantiles stay the weighted ones). C12-D4 (the batch quantile query stores exactly the single-query answer per element). "+
 			"NOT DECIDED: 'within one unit of weight of q·(W−1)', 'within alpha of an absorbed value', and emptiness of the positive side on the final branch (needs the relational fact rank ≤ count−1).",
 		"one obligation per path answering from the negative store",
 		false, runC11)
@@ -526,6 +526,9 @@ func runC11(c *Ctx) {
 			c.shared(func() { c14SortFlag(c, pr) }, func(o *Obligation) bool { return true })
 		}
 	}
+	// a change of mapping or unit is a history too: the shortcut for an unchanged mapping is taken only for a factor
+	// of 1, and every overlapping target bin receives its share
+	c.shared(func() { c17Table(c, a); c17Overlap(c, a) }, func(o *Obligation) bool { return true })
 	// weights also arrive by merging: the sketch merge adds the zero weight and both sides on every accepting path
 	// (a shortcut for an argument without bins drops the weight of its zero bucket)
 	c.shared(func() { c02MergeTable(c, a) }, func(o *Obligation) bool { return true })
